@@ -1036,6 +1036,9 @@ class World:
             self.viol("C18", "read", "C18.read|unexpected-warning", out.getvalue()[:100])
         # write
         path = self.path(rel)
+        if not os.path.isdir(os.path.dirname(path)):
+            self.probes["nested_dir_created"] += 1
+        old_size = os.path.getsize(path) if os.path.exists(path) else None
         fault = op.get("fault")
         plan = FaultPlan(fault)
         wopts = {}
@@ -1085,6 +1088,8 @@ class World:
         if fault:
             self.probes["ack_under_armed_fault"] += 1
         self.files[rel] = {"fmt": "geojson", "opts": {"encoding": enc}, "doc": doc, "state": "acked"}
+        if old_size is not None and os.path.exists(path) and os.path.getsize(path) < old_size:
+            self.probes["overwrite_longer_by_shorter"] += 1
         s = self.sfx(rel)
         tag = "after-" + fault["kind"] if fault else "fault-free"
         try:
@@ -1460,8 +1465,9 @@ class Gen:
         opts = {"encoding": enc}
         if r.random() < 0.6:
             opts["indent"] = r.choice([None, 0, 2, 4])
-        op = {"op": "geo", "path": self.new_path("geojson"), "opts": opts, "doc": doc,
-              "src_indent": r.choice([None, 2])}
+        old = self.existing(["geojson"], states=("acked", "torn", "undefined"))
+        op = {"op": "geo", "path": old if (old and r.random() < 0.25) else self.new_path("geojson"),
+              "opts": opts, "doc": doc, "src_indent": r.choice([None, 2])}
         if r.random() < 0.3:
             op["edit_then_rewrite"] = r.randrange(8)
         f = self.fault()
@@ -1715,5 +1721,25 @@ def replay(trace, prop):
     return _run(prop, trace=trace)
 
 
+PROBE_SCOPE = {
+    "C12": ["ack_under_armed_fault", "write_failed_loudly", "overwrite_longer_by_shorter",
+            "nested_dir_created", "compressed_roundtrip", "magic_checked", "torn_read_raised",
+            "torn_read_returned", "non_utf8_encoding", "fault_armed_not_fired", "read_fault_fired",
+            "failed_overwrite_of_acked_file", "edit_then_rewrite"],
+    "C14": ["restricted_read_checked", "alias_route_checked", "reordered_restriction", "typemap_checked",
+            "failing_cast_read", "reused_keyword_object", "torn_read_raised", "torn_read_returned",
+            "non_utf8_encoding", "compressed_roundtrip"],
+    "C18": ["ack_under_armed_fault", "write_failed_loudly", "overwrite_longer_by_shorter",
+            "nested_dir_created", "compressed_roundtrip", "magic_checked", "non_utf8_encoding",
+            "fault_armed_not_fired", "geojson_escaped_member_name", "geojson_null_geometry",
+            "geojson_edit_then_rewrite", "read_fault_fired"],
+}
+
+
 def extra_coverage(total, prop):
-    return {"representable_domain": DOMAIN}
+    probes = total.get("probes", {})
+    scope = PROBE_SCOPE.get(prop, list(probes))
+    return {"representable_domain": DOMAIN,
+            "probes": {k: probes.get(k, 0) for k in scope},
+            "probes_stuck_at_zero": sorted(k for k in scope if not probes.get(k, 0)),
+            "probes_out_of_scope_for_this_property": sorted(k for k in probes if k not in scope)}
